@@ -218,8 +218,6 @@ def real_obligations(check, Q, kernels, tag):
     low = Q.low
     tasks = []
     for (k1, k2), f in sorted(kernels.items()):
-        if k1 in DIRS or k2 in DIRS:
-            continue
         try:
             sc = SymCall(low, f)
         except Unsupported as e:
@@ -242,9 +240,14 @@ def real_obligations(check, Q, kernels, tag):
         for y in b:
             sb = mk('+', sb, mk('*', y, y))
         facts = [cmp('>', na, num(0)), cmp('==', mk('*', na, na), sa), cmp('>', nb, num(0)), cmp('==', mk('*', nb, nb), sb)]
+        # a direction argument satisfies its representation invariant (C10): unit length
+        if k1 in DIRS:
+            facts.append(cmp('==', na, num(1)))
+        if k2 in DIRS:
+            facts.append(cmp('==', nb, num(1)))
         goal = cmp('==', mk('*', arg, mk('*', na, nb)), dot)
         t = RealTask(check, 'C11.formula.%s.%s.real.%s' % (k1, k2, tag), S, goal, assumes=facts, function=f.qualname, loc=Q.loc(f), timeout=120)
-        t.ob.text = 'acos argument * |a| * |b| == a.b  (|a|,|b| > 0 defined by n*n == a.a)'
+        t.ob.text = 'acos argument * |a| * |b| == a.b  (|a|,|b| > 0 defined by n*n == a.a; a direction has |d| == 1)'
         tasks.append(t)
         goal2 = land(cmp('<=', num(-1), arg), cmp('<=', arg, num(1)))
         t2 = RealTask(check, 'C11.range.%s.%s.real.%s' % (k1, k2, tag), S, goal2, assumes=facts, function=f.qualname, loc=Q.loc(f), timeout=120)
@@ -295,7 +298,42 @@ def real_obligations(check, Q, kernels, tag):
             m = re.match(r'C11\.clamp\.(\w+)\.(\w+)\.real', ob.name)
             if m and (m.group(1), m.group(2)) in kernels:
                 search_parallel(check, Q, kernels[(m.group(1), m.group(2))], rec)
+            m = re.match(r'C11\.(formula|range|symmetric)\.(\w+)\.(\w+)\.real', ob.name)
+            if m and (m.group(2), m.group(3)) in kernels:
+                replay_angle(check, Q, kernels, (m.group(2), m.group(3)), rec, ob)
             check.violations.append((ob, write_replay(check, ob, rec), '' if rec['confirmed'] else 'no-failing-input-found'))
+
+
+def replay_angle(check, Q, kernels, key, rec, ob):
+    """Native: the angle of generic (non-orthogonal, non-unit) arguments against atan2(|a x b|, a.b), and against the mirrored kernel."""
+    import math
+    low = Q.low
+    k1, k2 = key
+    T = low.record(kernels[key].record).targs[-1]
+    mkarg = {'Vector': 'PhQ::Vector<%s>(%s)', 'PlanarVector': 'PhQ::PlanarVector<%s>(%s)', 'Direction': 'PhQ::Direction<%s>(%s)', 'PlanarDirection': 'PhQ::PlanarDirection<%s>(%s)'}
+    samples = [([2.0, -3.0, 6.0], [1.0, 4.0, -2.0]), ([3.0, 3.0, 0.5], [1.0, 0.25, 2.0]), ([0.5, 2.0, -1.0], [-4.0, 1.0, 3.0])]
+    body = ''
+    for a, b in samples:
+        na = 3 if 'Planar' not in k1 else 2
+        nb = 3 if 'Planar' not in k2 else 2
+        a3, b3 = (a[:na] + [0.0])[:3], (b[:nb] + [0.0])[:3]
+        cr = [a3[1] * b3[2] - a3[2] * b3[1], a3[2] * b3[0] - a3[0] * b3[2], a3[0] * b3[1] - a3[1] * b3[0]]
+        want = math.atan2(math.sqrt(sum(x * x for x in cr)), sum(x * y for x, y in zip(a3, b3)))
+        A = mkarg[k1] % (T, ', '.join(repr(x) for x in a[:na]))
+        B = mkarg[k2] % (T, ', '.join(repr(x) for x in b[:nb]))
+        body += ('  { const double got = static_cast<double>(PhQ::Angle<%s>(%s, %s).Value()); const double mirrored = static_cast<double>(PhQ::Angle<%s>(%s, %s).Value());\n'
+                 '    if (!(std::fabs(got - %r) <= 1e-5)) { std::printf("MISMATCH Angle(%s, %s) = %%.9g, atan2(|a x b|, a.b) = %%.9g\\n", got, %r); bad++; }\n'
+                 '    if (!(std::fabs(got - mirrored) <= 1e-5)) { std::printf("MISMATCH Angle(a, b) = %%.9g but Angle(b, a) = %%.9g for a = %s, b = %s\\n", got, mirrored); bad++; } }\n') % (
+                     T, A, B, T, B, A, want, a[:na], b[:nb], want, a[:na], b[:nb])
+    cpp = '#include <PhQ/Angle.hpp>\n#include <PhQ/Vector.hpp>\n#include <PhQ/PlanarVector.hpp>\n#include <PhQ/Direction.hpp>\n#include <PhQ/PlanarDirection.hpp>\n#include <cstdio>\n#include <cmath>\nint main() {\n  int bad = 0;\n%s  return bad ? 1 : 0;\n}\n' % body
+    r, err = replay.build_and_run(cpp, os.path.join(check.work, 'replay'), 'r_' + re.sub(r'\W+', '_', ob.name))
+    if err:
+        rec['replay_error'] = err[:600]
+    else:
+        rec['cpp'], rec['native_output'] = cpp, r.stdout[:1500]
+        if 'MISMATCH' in r.stdout:
+            rec['confirmed'], rec['mismatch'] = True, r.stdout.strip().split('\n')[:4]
+            rec['inputs'] = {'samples': samples}
 
 
 def find_apps(t, fname):
